@@ -148,11 +148,21 @@ def run_history(h, evroot):
         # collect events: per process in its own order; workers numbered by first appearance
         procs = {}
         for fn in sorted(glob.glob(os.path.join(evdir, "*.ndjson"))):
-            evs = [json.loads(line) for line in open(fn)]
+            evs = []
+            for line in open(fn):
+                try:
+                    evs.append(json.loads(line))
+                except ValueError:  # a worker was terminated in the middle of a write
+                    pass
+            os.remove(fn)
+            if not evs:
+                continue
             evs.sort(key=lambda e: e["seq"])
             procs[evs[0]["pid"]] = evs
-            os.remove(fn)
-        os.rmdir(evdir)
+        try:
+            os.rmdir(evdir)
+        except OSError:
+            pass
         rec["events_by_proc"] = [dict(parent=(pid == _MAIN_PID), events=[{k: v for k, v in e.items() if k not in ("pid", "seq")} for e in evs]) for pid, evs in sorted(procs.items())]
         out["calls"].append(rec)
     return out
